@@ -2,95 +2,147 @@ import C2paModel.Model.C11
 /-
 C35 — model of stream reading under an arbitrary short-read / fault oracle.
 
-A stream is its byte content, a position and a *schedule*: for each successive `read` call
-with a non-empty buffer the schedule gives the most that call hands out (`0` = the call
-fails with an I/O error); when the schedule is exhausted reads are full. This covers every
-behaviour `std::io::Read` permits (any positive count ≤ min(buffer, remaining)).
+A stream is its byte content, a position, a *read schedule* and a *seek schedule*:
+* for each successive `read` call with a non-empty buffer the read schedule says what that call
+  does: `rd (k+1)` hands out at most `k+1` bytes, `rd 0` fails with a hard I/O error, `intr` fails
+  with `ErrorKind::Interrupted`; when the schedule is exhausted reads are full. This covers every
+  behaviour `std::io::Read` permits (any positive count ≤ min(buffer, remaining));
+* for each successive `seek` call (rewind, `stream_position` of a generic stream, absolute seeks)
+  the seek schedule says whether that call fails; when exhausted seeks succeed.
 
 Modelled code:
-* `container_from_stream` (sdk/src/jumbf_io.rs): fill loop for the 16-byte sniff buffer,
-  the magic tests (shared with C11), the ID3 branch's seek + `read_exact` peek;
-* `BoxReader::read_header` (sdk/src/jumbf/boxes.rs): one `read` of 8 bytes (0 bytes = end
-  of data), a short first read completed with `read_exact`, `read_exact` for the large size;
-* `ReaderUtils::read_to_vec` (sdk/src/utils/io_utils.rs): bounds check, then
-  `take(len).read_to_end`.
+* `container_from_stream` (sdk/src/jumbf_io.rs): `rewind().ok()?`, the fill loop for the 16-byte
+  sniff buffer (`Interrupted` retried, any other error = `None`), `rewind().ok()?`, the magic tests
+  (C11's `detectB`), the ID3 branch's seek + `read_exact` probe with its `unwrap_or(false)`;
+* `format_from_stream`: `match (hinted, detected)` (`None` — including an I/O error — = the hint);
+* `BoxReader::read_header` (sdk/src/jumbf/boxes.rs): one bare `read` of 8 bytes (0 bytes = end of
+  data, `Interrupted` is returned like any error), a short first read completed with `read_exact`,
+  `read_exact` for the large size; from any stream position;
+* `ReaderUtils::read_to_vec` (sdk/src/utils/io_utils.rs): `stream_position`, `seek(End(0))`,
+  `seek(Start(old))` when not at the end, the bounds checks, `safe_vec`, then
+  `take(len).read_to_end` (std: requests the remaining limit, retries `Interrupted`).
 -/
 namespace C2pa.C35
 
-open C2pa.C11 (Fmt b sliceEq id3Size firstMatch lJpg lPng lGif lTif lJxl lAvi lAvif lFlac lMp3 lPdf)
+open C2pa.C11 (Fmt b sliceEq id3Size firstMatch detectB rulesB isId3 mFLaC
+  lJpg lPng lGif lTif lJxl lAvi lAvif lFlac lMp3 lPdf)
+
+/-- What one `Read::read` call does. -/
+inductive Ev
+  | rd (k : Nat)   -- `rd 0`: hard I/O error; `rd (k+1)`: at most `k+1` bytes
+  | intr           -- `ErrorKind::Interrupted`
+  deriving DecidableEq, Repr
 
 structure St where
   data : List UInt8
   pos : Nat
-  sched : List Nat
+  sched : List Ev
+  seeks : List Bool := []
   deriving Repr
 
-/-- One `Read::read` call with a buffer of `want` bytes. `none` = I/O error. -/
-def readOnce (s : St) (want : Nat) : Option (List UInt8) × St :=
-  if want = 0 then (some [], s)
+/-- Result of one `read` call. -/
+inductive Rd
+  | ok (bs : List UInt8)
+  | io
+  | intr
+  deriving Repr
+
+/-- One `Read::read` call with a buffer of `want` bytes. -/
+def readOnce (s : St) (want : Nat) : Rd × St :=
+  if want = 0 then (.ok [], s)
   else match s.sched with
     | [] =>
       let bs := (s.data.drop s.pos).take want
-      (some bs, { s with pos := s.pos + bs.length })
-    | 0 :: rest => (none, { s with sched := rest })
-    | (k + 1) :: rest =>
+      (.ok bs, { s with pos := s.pos + bs.length })
+    | .rd 0 :: rest => (.io, { s with sched := rest })
+    | .intr :: rest => (.intr, { s with sched := rest })
+    | .rd (k + 1) :: rest =>
       let bs := (s.data.drop s.pos).take (min want (k + 1))
-      (some bs, { s with pos := s.pos + bs.length, sched := rest })
+      (.ok bs, { s with pos := s.pos + bs.length, sched := rest })
 
-/-- Loop "read until `want` bytes or EOF" (the fixed sniff loop; also `read_to_end` under
-`take`): returns the bytes gathered, `none` on an I/O error. Fuel = `want` suffices because
-every successful non-empty read makes progress. -/
+/-- One `Seek::seek` call to absolute position `p`: `(succeeded, state)`. A failing seek leaves the
+position where it was. -/
+def seekTo (s : St) (p : Nat) : Bool × St :=
+  match s.seeks with
+  | [] => (true, { s with pos := p })
+  | true :: rest => (false, { s with seeks := rest })
+  | false :: rest => (true, { s with pos := p, seeks := rest })
+
+/-- Loop "read until `want` bytes or EOF, retrying `Interrupted`" (the sniff loop; also
+`read_exact` and `read_to_end` under `take`): the bytes gathered, `none` on a hard I/O error.
+Every iteration either consumes a schedule entry or (schedule exhausted) reads everything that
+is left, so fuel `want + |schedule|` suffices (`fill`). -/
 def readFill : Nat → St → Nat → Option (List UInt8) × St
   | 0, s, _ => (some [], s)
   | fuel + 1, s, want =>
     if want = 0 then (some [], s)
     else match readOnce s want with
-      | (none, s') => (none, s')
-      | (some [], s') => (some [], s')
-      | (some bs, s') =>
-        match readFill fuel s' (want - bs.length) with
-        | (none, s'') => (none, s'')
-        | (some more, s'') => (some (bs ++ more), s'')
+      | (.io, s') => (none, s')
+      | (.intr, s') => readFill fuel s' want
+      | (.ok bs, s') =>
+        if bs = [] then (some [], s')   -- `Ok(0)`: end of stream
+        else match readFill fuel s' (want - bs.length) with
+          | (none, s'') => (none, s'')
+          | (some more, s'') => (some (bs ++ more), s'')
+
+def fill (s : St) (want : Nat) : Option (List UInt8) × St :=
+  readFill (want + s.sched.length) s want
 
 inductive RErr | eof | io
   deriving DecidableEq, Repr
 
-/-- `Read::read_exact`: as `readFill`, but fewer than `want` bytes is `UnexpectedEof`. -/
+/-- `Read::read_exact`: as `fill`, but fewer than `want` bytes is `UnexpectedEof`. -/
 def readExact (s : St) (want : Nat) : Except RErr (List UInt8) × St :=
-  match readFill want s want with
+  match fill s want with
   | (some bs, s') => if bs.length = want then (.ok bs, s') else (.error .eof, s')
   | (none, s') => (.error .io, s')
 
-/-- The magic rules on an explicit buffer and an explicit "fLaC follows the ID3 tag" bit. -/
-def rulesB (pdf : Bool) (buf : List UInt8) (isFlac : Bool) : List (Bool × Fmt) :=
-  let id3 := decide (buf.length ≥ 10) && sliceEq buf 0 (b "ID3")
-  [ (sliceEq buf 0 [0xff, 0xd8, 0xff], lJpg),
-    (sliceEq buf 0 [0x89, 0x50, 0x4e, 0x47, 0x0d, 0x0a, 0x1a, 0x0a], lPng),
-    (sliceEq buf 0 (b "GIF87a") || sliceEq buf 0 (b "GIF89a"), lGif),
-    (sliceEq buf 0 [0x49, 0x49, 0x2A, 0x00] || sliceEq buf 0 [0x4D, 0x4D, 0x00, 0x2A]
-      || sliceEq buf 0 [0x49, 0x49, 0x2B, 0x00] || sliceEq buf 0 [0x4D, 0x4D, 0x00, 0x2B], lTif),
-    (sliceEq buf 0 [0x00, 0x00, 0x00, 0x0c, 0x4a, 0x58, 0x4c, 0x20, 0x0d, 0x0a, 0x87, 0x0a], lJxl),
-    (sliceEq buf 0 (b "RIFF"), lAvi),
-    (sliceEq buf 4 (b "ftyp"), lAvif),
-    (sliceEq buf 0 (b "fLaC"), lFlac),
-    (id3 && isFlac, lFlac),
-    (id3, lMp3),
-    (buf.getD 0 0 == 0xff && (buf.getD 1 0).toNat / 32 == 7, lMp3) ]
-  ++ (if pdf then [(sliceEq buf 0 (b "%PDF"), lPdf)] else [])
+/-- The ID3 branch of `container_from_stream` is reached: the stream starts with an ID3v2 header
+and none of the eight magic tests before it holds. -/
+def id3Reached (pdf : Bool) (buf : List UInt8) : Bool :=
+  (firstMatch ((rulesB pdf buf false).take 8)).isNone && isId3 buf
 
-/-- `container_from_stream` on a scheduled stream. An I/O error while filling the sniff
-buffer gives `none` (as coded: `Err(_) => return None`); the ID3 peek maps any failure to
-"not FLAC" (`unwrap_or(false)`). -/
-def sniff (pdf : Bool) (data : List UInt8) (sched : List Nat) : Option Fmt :=
-  match readFill 16 { data := data, pos := 0, sched := sched } 16 with
-  | (none, _) => none
-  | (some buf, s1) =>
-    if buf.length < 2 then none
-    else
-      let isFlac := match (readExact { s1 with pos := 10 + id3Size buf } 4).1 with
-        | .ok m => m == b "fLaC"
-        | .error _ => false
-      firstMatch (rulesB pdf buf isFlac)
+/-- The probe of the ID3 branch: `seek(Start(10 + tag size))`, `read_exact(4)`, `== "fLaC"`.
+`Except.error ()` = the seek or a read failed with a hard I/O error. -/
+def probe (s : St) (buf : List UInt8) : Except Unit Bool :=
+  match seekTo s (10 + id3Size buf) with
+  | (false, _) => .error ()
+  | (true, s3) =>
+    match (readExact s3 4).1 with
+    | .ok m => .ok (m == mFLaC)
+    | .error .eof => .ok false
+    | .error .io => .error ()
+
+/-- `container_from_stream` on a scheduled stream. An I/O error while rewinding or filling the
+sniff buffer gives `none` (as coded: `.ok()?`, `Err(_) => return None`); the ID3 probe maps
+*any* failure to "not FLAC" (`unwrap_or(false)`), the final rewind's result is dropped. -/
+def sniff (pdf : Bool) (data : List UInt8) (sched : List Ev) (seeks : List Bool) : Option Fmt :=
+  match seekTo { data := data, pos := 0, sched := sched, seeks := seeks } 0 with
+  | (false, _) => none
+  | (true, s0) =>
+    match fill s0 16 with
+    | (none, _) => none
+    | (some buf, s1) =>
+      match seekTo s1 0 with
+      | (false, _) => none
+      | (true, s2) =>
+        if id3Reached pdf buf then
+          match probe s2 buf with
+          | .ok flac => detectB pdf buf flac
+          | .error _ => detectB pdf buf false   -- `unwrap_or(false)`: the I/O error is dropped
+        else detectB pdf buf false
+
+/-- `format_from_stream`: `hinted` = `container_from_format(hint)` (supplied: the container map is
+C11's subject). -/
+def reconcile (hinted : Option Fmt) (hint : Fmt) (detected : Option Fmt) : Fmt :=
+  match hinted, detected with
+  | some h, some d => if h == d then hint else d
+  | none, some d => d
+  | _, none => hint
+
+def formatFromStream (pdf : Bool) (hinted : Option Fmt) (hint : Fmt) (data : List UInt8)
+    (sched : List Ev) (seeks : List Bool) : Fmt :=
+  reconcile hinted hint (sniff pdf data sched seeks)
 
 inductive Hdr
   | ok (typ : Nat) (size : Nat)
@@ -100,14 +152,14 @@ inductive Hdr
 
 def be (bs : List UInt8) : Nat := bs.foldl (fun acc x => acc * 256 + x.toNat) 0
 
-def padTo (n : Nat) (bs : List UInt8) : List UInt8 := bs ++ List.replicate (n - bs.length) 0
-
-/-- `BoxReader::read_header`, as coded: one `read` into a zeroed 8-byte buffer. -/
-def readHeader (data : List UInt8) (sched : List Nat) : Option Hdr :=
-  match readOnce { data := data, pos := 0, sched := sched } 8 with
-  | (none, _) => none
-  | (some [], _) => some .empty
-  | (some bs, s1) =>
+/-- `BoxReader::read_header` from stream position `pos`, as coded: one bare `read` into a zeroed
+8-byte buffer (`?`: a hard error *and* `Interrupted` are returned), then `read_exact`s. -/
+def readHeader (data : List UInt8) (pos : Nat) (sched : List Ev) : Option Hdr :=
+  match readOnce { data := data, pos := pos, sched := sched } 8 with
+  | (.io, _) => none
+  | (.intr, _) => none
+  | (.ok [], _) => some .empty
+  | (.ok bs, s1) =>
     -- a short first read is completed with `read_exact` (or fails)
     match readExact s1 (8 - bs.length) with
     | (.error .eof, _) => some .eof
@@ -123,23 +175,38 @@ def readHeader (data : List UInt8) (sched : List Nat) : Option Hdr :=
         | (.error .io, _) => none
       else some (.ok typ size)
 
-/-- `read_to_vec(data_len)` from position `pos`: bounds check against the stream length
-(u64 `checked_add`), then `take(data_len).read_to_end`. `std`'s `read_to_end` chooses its own
-buffer sizes, so the schedule is applied with the largest request (`want - got`); which
-schedule entry a given `std` call consumes is not modelled, only *whether a fault was
-delivered* (`faulted`, reported by the harness) — a delivered fault is an error (the `std`
-contract), otherwise the bytes are those of the fill loop. -/
-def readToVec (data : List UInt8) (pos want : Nat) (sched : List Nat) (faulted : Bool) :
+/-- `read_to_vec(data_len)` from position `pos` of a generic `Read + Seek` stream:
+`stream_position()?` (a `seek(Current(0))`), `seek(End(0))?`, `seek(Start(old_pos))?` unless
+already at the end, `old_pos.checked_add(data_len)` (u64) and `> len` checks, `safe_vec`
+(`try_reserve_exact` refuses more than `isize::MAX` bytes), then `take(data_len).read_to_end`:
+std asks the stream for the remaining limit on every call, retries `Interrupted`, returns a hard
+error, and stops without a further call once the limit is used up. -/
+def readToVec (data : List UInt8) (pos want : Nat) (sched : List Ev) (seeks : List Bool) :
     Option (List UInt8) :=
-  if pos + want ≥ 2 ^ 64 then none
-  else if pos + want > data.length then none
-  else if faulted then none
-  else (readFill want { data := data, pos := pos, sched := sched.filter (· ≠ 0) } want).1
+  match seekTo { data := data, pos := pos, sched := sched, seeks := seeks } pos with
+  | (false, _) => none
+  | (true, s1) =>
+    match seekTo s1 data.length with
+    | (false, _) => none
+    | (true, s2) =>
+      match (if pos = data.length then (true, s2) else seekTo s2 pos) with
+      | (false, _) => none
+      | (true, s3) =>
+        if pos + want ≥ 2 ^ 64 then none
+        else if pos + want > data.length then none
+        else if want ≥ 2 ^ 63 then none
+        else (fill s3 want).1
 
-/-! ### line protocol -/
+/-! ### line protocol
+`sched` = per `read` call: `<k>` (at most k bytes; `0` = hard error) or `i` (Interrupted), `-` = empty;
+`seeks` = per `seek` call `1` (fails) / `0`, `-` = empty. -/
 
-def parseSched (s : String) : List Nat :=
-  if s == "-" then [] else (s.splitOn ",").filterMap String.toNat?
+def parseSched (s : String) : List Ev :=
+  if s == "-" then []
+  else (s.splitOn ",").filterMap (fun t => if t == "i" then some Ev.intr else t.toNat?.map Ev.rd)
+
+def parseSeeks (s : String) : List Bool :=
+  if s == "-" then [] else (s.splitOn ",").map (· == "1")
 
 def typName (t : Nat) : String :=
   if t = 0x00000000 then "Empty" else if t = 0x6A756D62 then "Jumb" else if t = 0x6A756D64 then "Jumd"
@@ -148,28 +215,40 @@ def typName (t : Nat) : String :=
   else if t = 0x62666462 then "EmbedMediaDesc" else if t = 0x62696462 then "EmbedContent"
   else if t = 0x62726F62 then "Brotli" else "UnknownBox(" ++ toString t ++ ")"
 
+def str? (s : String) : Option Fmt :=
+  if s == "-" then some [] else (fromHex? s).map (·.map (fun u => Char.ofNat u.toNat))
+
 def handle (toks : List String) : String :=
   match toks with
   | "sniff" :: rest =>
     match fromHex? (field rest "data") with
     | some data =>
-      match sniff (field rest "pdf" == "1") data (parseSched (field rest "sched")) with
+      match sniff (field rest "pdf" == "1") data (parseSched (field rest "sched"))
+          (parseSeeks (field rest "seeks")) with
       | some d => String.ofList d
       | none => "-"
     | none => "bad-hex"
+  | "format" :: rest =>
+    match fromHex? (field rest "data"), str? (field rest "hint") with
+    | some data, some hint =>
+      let hinted := if field rest "fam" == "-" then none else some (field rest "fam").toList
+      toHex ((formatFromStream (field rest "pdf" == "1") hinted hint data
+        (parseSched (field rest "sched")) (parseSeeks (field rest "seeks"))).map
+          (fun c => UInt8.ofNat c.toNat))
+    | _, _ => "bad-hex"
   | "header" :: rest =>
-    match fromHex? (field rest "data") with
-    | some data =>
-      match readHeader data (parseSched (field rest "sched")) with
+    match fromHex? (field rest "data"), (field rest "pos").toNat? with
+    | some data, some pos =>
+      match readHeader data pos (parseSched (field rest "sched")) with
       | some (.ok t sz) => "ok " ++ typName t ++ " " ++ toString sz
       | some .empty => "ok Empty 0"
       | some .eof => "eof"
       | none => "err"
-    | none => "bad-hex"
+    | _, _ => "bad-hex"
   | "tovec" :: rest =>
     match fromHex? (field rest "data"), (field rest "pos").toNat?, (field rest "len").toNat? with
     | some data, some pos, some want =>
-      match readToVec data pos want (parseSched (field rest "sched")) (field rest "faulted" == "1") with
+      match readToVec data pos want (parseSched (field rest "sched")) (parseSeeks (field rest "seeks")) with
       | some v => "ok " ++ toHex v
       | none => "err"
     | _, _, _ => "bad-req"
